@@ -5,6 +5,8 @@ import (
 	"encoding/asn1"
 	"encoding/json"
 	"fmt"
+	"strconv"
+	"strings"
 	"testing"
 
 	"github.com/wokdav/gopki/generator/cert"
@@ -25,7 +27,22 @@ type synExt struct {
 
 var synOIDs = map[string]asn1.ObjectIdentifier{"A": {1, 2, 3, 1}, "B": {1, 2, 3, 2}, "C": {1, 2, 3, 3}}
 
-func (s synExt) Oid() asn1.ObjectIdentifier { return synOIDs[s.O] }
+// Oid: the three letters name short OIDs; anything else is a dotted OID (families of long OIDs that
+// share most of their arcs).
+func (s synExt) Oid() asn1.ObjectIdentifier {
+	if o, ok := synOIDs[s.O]; ok {
+		return o
+	}
+	var out asn1.ObjectIdentifier
+	for _, p := range strings.Split(s.O, ".") {
+		v, err := strconv.Atoi(p)
+		if err != nil {
+			panic("harness: bad synthetic OID " + s.O)
+		}
+		out = append(out, v)
+	}
+	return out
+}
 func (s synExt) Builder() (cert.ExtensionBuilder, error) {
 	if s.P == "" {
 		return config.OverrideNeededBuilder{}, nil
@@ -154,7 +171,7 @@ func checkC08(c c08Case) *core.Failure {
 func TestC08(t *testing.T) {
 	r := core.Start(t, "C08")
 	defer r.Finish()
-	r.Rule = "(a) exhaustive: synthetic extensions over OIDs {A,B} (thorough also {A,B,C} with profile and certificate lists up to length 3); profile lists up to length 2 (quick) / 3 (thorough) over entry x optional x override (24 values per entry, content-less entries included), certificate lists up to length 3 / 4 over 4 values, every pair fed to config.Merge and compared with the documented rules, with deep snapshots of both inputs (including the spare capacity of the certificate's slice) before and after. (a2) random synthetic lists of 50-90 certificate and up to 80 profile entries. (b) random: real extension kinds end to end through YAML with related profiles (see C06), including the must-fail case of a remaining content-less entry. Non-trivial = repeated OID on either side, or optional and override on one entry, or a content-less entry; distinct by the pair."
+	r.Rule = "(a) exhaustive: synthetic extensions over OIDs {A,B} (thorough also {A,B,C} with profile and certificate lists up to length 3); profile lists up to length 2 (quick) / 3 (thorough) over entry x optional x override (24 values per entry, content-less entries included), certificate lists up to length 3 / 4 over 4 values, every pair fed to config.Merge and compared with the documented rules, with deep snapshots of both inputs (including the spare capacity of the certificate's slice) before and after. (a2) random synthetic lists of 50-90 certificate and up to 80 profile entries. (a3) random short lists over families of 8-18-arc OIDs that agree in most arcs and differ in a late (or one early) arc or in length. (b) random: real extension kinds end to end through YAML with related profiles (see C06), including the must-fail case of a remaining content-less entry; a quarter of the two-certificate cases share one profile, the second certificate's list being the first one's with raw-only entries moved to another extension kind. Non-trivial = repeated OID on either side, or optional and override on one entry, or a content-less entry; distinct by the pair."
 	r.Assumptions = []string{"'differs' is decided on configuration values; the end-to-end generator avoids pairs that are equal in encoding but not in text"}
 	wrap := func(c c08Case) *core.Failure {
 		nt := false
@@ -203,6 +220,9 @@ func TestC08(t *testing.T) {
 			key = fmt.Sprint(c.W.Texts())
 		}
 		r.Case(key, "e2e:"+kind)
+		if c.Siblings {
+			r.Classes["e2e:two-certificates-one-profile-kinds-swapped"]++
+		}
 		r.Sample("e2e:"+kind, c.W.Texts())
 		return f
 	}
@@ -290,8 +310,66 @@ func TestC08(t *testing.T) {
 		}
 		return c
 	}, wrap)
+	// families of long OIDs: equal in many leading arcs (and often in length), different in a late one
+	core.Rapid(r, "merge", r.Pick(1500, 60000), func(t *rapid.T) c08Case {
+		var c c08Case
+		base := []string{"1", "3", "6", "1", "4", "1", "99999"}
+		for n := rapid.IntRange(0, 9).Draw(t, "stem-extra"); n > 0; n-- {
+			base = append(base, fmt.Sprint(rapid.SampledFrom([]int{0, 1, 2, 127, 128, 70000}).Draw(t, fmt.Sprintf("stem%d", n))))
+		}
+		stem := strings.Join(base, ".")
+		family := []string{stem + ".1", stem + ".2", stem + ".1.1", stem + ".2.1", stem, stem + ".1.0", stem + ".1.1.1.1.1", stem + ".1.1.1.1.2"}
+		if len(base) > 8 {
+			// differing in an early arc only
+			alt := append([]string{}, base...)
+			alt[7] = alt[7] + "1"
+			family = append(family, strings.Join(alt, ".")+".1")
+		}
+		k := rapid.IntRange(2, 4).Draw(t, "family-size")
+		var alpha []string
+		for len(alpha) < k {
+			o := rapid.SampledFrom(family).Draw(t, fmt.Sprintf("fam%d", len(alpha)))
+			if !inList(o, alpha) {
+				alpha = append(alpha, o)
+			}
+		}
+		n := rapid.IntRange(0, 5).Draw(t, "ncert")
+		for i := 0; i < n; i++ {
+			c.Cert = append(c.Cert, synExt{rapid.SampledFrom(alpha).Draw(t, fmt.Sprintf("co%d", i)), rapid.SampledFrom([]string{"x", "y"}).Draw(t, fmt.Sprintf("cp%d", i))})
+		}
+		m := rapid.IntRange(1, 4).Draw(t, "nprof")
+		for i := 0; i < m; i++ {
+			c.Prof = append(c.Prof, synProf{synExt{rapid.SampledFrom(alpha).Draw(t, fmt.Sprintf("po%d", i)), rapid.SampledFrom([]string{"x", "y", ""}).Draw(t, fmt.Sprintf("pp%d", i))},
+				rapid.Bool().Draw(t, fmt.Sprintf("popt%d", i)), rapid.Bool().Draw(t, fmt.Sprintf("povr%d", i))})
+		}
+		r.Classes[fmt.Sprintf("merge:long-oid-family:%d-arcs", len(base)+1)]++
+		return c
+	}, wrap)
 	gen := func(t *rapid.T) extCase {
 		c := genExtCase(t, core.AllKinds, 6, 64, true)
+		if len(c.W.Ents) == 2 && c.W.Ents[0].Profile != "" && rapid.IntRange(0, 3).Draw(t, "siblings-share-profile") == 0 {
+			// both certificates of the run reference one profile, and the second one's own list is the first one's
+			// with raw-only entries moved to another extension kind (same flags, same payload text)
+			ca, leaf := &c.W.Ents[0], &c.W.Ents[1]
+			leaf.Profile = ca.Profile
+			leaf.Extensions = nil
+			rawKinds := []string{core.KKU, core.KEKU, core.KSAN, core.KCP, core.KAIA, core.KADM, core.KSKI, core.KAKI, core.KBC, core.KOCSP}
+			for i, x := range ca.Extensions {
+				y := cloneExt(x)
+				if y.Raw != nil && y.Kind != core.KCUSTOM && rapid.Bool().Draw(t, fmt.Sprintf("sib-swap%d", i)) {
+					y.Kind = rapid.SampledFrom(rawKinds).Draw(t, fmt.Sprintf("sib-kind%d", i))
+				}
+				leaf.Extensions = append(leaf.Extensions, y)
+			}
+			var keep []core.Profile
+			for _, p := range c.W.Profs {
+				if p.Name == ca.Profile {
+					keep = append(keep, p)
+				}
+			}
+			c.W.Profs = keep
+			c.Siblings = true
+		}
 		if rapid.IntRange(0, 7).Draw(t, "bc-near-miss") == 0 {
 			// profile and certificate carry basicConstraints that differ only in an explicit "pathLen: 0"
 			with := core.Extension{Kind: core.KBC, HasContent: true, BC: &core.BC{Ca: core.BoolP(true), PathLen: core.IntP(0)}}
